@@ -222,6 +222,9 @@ def div_nxm_normalized(num, div, tr=None):
     n = len(div)
     if n < 2 or len(num) <= n or div[-1] < (1 << 63):
         raise Pre()
+    top = num[len(num) - n:]
+    if not sum(x << (64 * i) for i, x in enumerate(top)) < sum(x << (64 * i) for i, x in enumerate(div)):
+        raise Pre()
     m = len(num) - n - 1
     d = (div[n - 1] << 64) | div[n - 2]
     v = reciprocal_2(d, tr)
